@@ -42,6 +42,10 @@ let run (toks : string list) (cout : string list) : string =
     let objs = List.filter (fun t -> String.contains t '/') cgroups.(k) in
     let t = List.nth objs i in
     String.sub t 0 (String.index t '/') in
+  let c_obj_flag k i =
+    let objs = List.filter (fun t -> String.contains t '/') cgroups.(k) in
+    let t = List.nth objs i in
+    t.[String.length t - 1] in
   let s = ref state0 in
   let wr = write_reset in
   let doit (e : op) : obs =
@@ -116,6 +120,42 @@ let run (toks : string list) (cout : string list) : string =
            if r <> a && r <> b then ignore (doit (PHash (nat r)));
            Buffer.add_string buf " R1"
          end
+       | [("cont" | "pp" | "reductum") as o; r; a] ->
+         let r = ix r and a = ix a in
+         prep a;
+         let da = den a in
+         if da = [] || (o = "reductum" && top_var !s.sord da = None) then Buffer.add_string buf " X"
+         else begin
+           let res = mpoly_of_string (c_obj_text k r) in
+           ignore (doit (PUn ((fun _ _ -> res), nat r, nat a)))
+         end
+       | ["lcm"; r; a; b] ->
+         let r = ix r and a = ix a and b = ix b in
+         prep a; prep b;
+         if den a = [] || den b = [] then Buffer.add_string buf " X"
+         else begin
+           let res = mpoly_of_string (c_obj_text k r) in
+           ignore (doit (PBin ((fun _ _ _ -> res), nat r, nat a, nat b)))
+         end
+       | ["submul"; r; a; b] ->
+         let r = ix r and a = ix a and b = ix b in
+         prep a; prep b; prep r;
+         ignore (doit (PCmp (nat r, nat r)));
+         let dr = den r in
+         ignore (doit (PBin ((fun _ x y -> mp_sub dr (mp_mul x y)), nat r, nat a, nat b)))
+       | ["mulc"; r; a; c] ->
+         let r = ix r and a = ix a in
+         prep a;
+         ignore (doit (PUn ((fun _ p -> mp_scale (z_of_string c) p), nat r, nat a)))
+       | ["shl"; r; a; n] ->
+         let r = ix r and a = ix a in
+         prep a;
+         (match top_var !s.sord (den a) with
+          | None -> Buffer.add_string buf " X"
+          | Some _ ->
+            ignore (doit (PUn ((fun ord p -> match top_var ord p with
+                                             | None -> p
+                                             | Some x -> mp_mul p (mp_var_pow x (n_of_string n))), nat r, nat a))))
        | [("neg" | "der") as o; r; a] ->
          let r = ix r and a = ix a in
          prep a;
@@ -134,7 +174,18 @@ let run (toks : string list) (cout : string list) : string =
        | ["eq"; i; j] ->
          let i = ix i and j = ix j in
          prep i; prep j;
-         (match doit (PEq (nat i, nat j)) with OBool b -> Buffer.add_string buf (" E" ^ string_of_bool01 b) | _ -> failwith "obs")
+         if mp_eqb (den i) (den j) then
+           (match doit (PEq (nat i, nat j)) with OBool b -> Buffer.add_string buf (" E" ^ string_of_bool01 b) | _ -> failwith "obs")
+         else begin
+           (* different polynomials: the answer must be 0, but whether lp_polynomial_eq got as far as the comparison
+              (which re-orders external operands) depends on a hash collision, which the property leaves open.
+              Both caches are filled; the re-ordering is taken from the implementation's output: if it shows an
+              external operand of this call re-ordered, BOTH operands have been cleaned (lp_polynomial_cmp). *)
+           ignore (doit (PHash (nat i))); ignore (doit (PHash (nat j)));
+           let pending k = let p = get !s (nat k) in p.pext && not (in_order !s.sord p.pdata) in
+           if (pending i && c_obj_flag k i = '1') || (pending j && c_obj_flag k j = '1') then ignore (doit (PCmp (nat i, nat j)));
+           Buffer.add_string buf " E0"
+         end
        | ["cmp"; i; j] ->
          let i = ix i and j = ix j in
          prep i; prep j;
